@@ -76,9 +76,18 @@ class _Enc:
     value = "utf8"
 
 
-def build_by_signature(cls):
+def accepts_alias_kw(cls):
+    try:
+        prms = inspect.signature(cls.__init__).parameters
+    except (TypeError, ValueError):
+        return False
+    return "alias" in prms or any(p.kind == p.VAR_KEYWORD for p in prms.values())
+
+
+def build_by_signature(cls, **kw):
     """construct an instance of a Term subclass the recipe table does not know, from its signature"""
     import pypika_tortoise as P
+    from pypika_tortoise import enums
 
     sig = inspect.signature(cls.__init__)
     args = []
@@ -102,9 +111,19 @@ def build_by_signature(cls):
             args.append("FN")
         elif name in ("interval",):
             args.append("day")
+        elif name == "comparator":
+            args.append(enums.Boolean.and_ if cls.__name__ == "ComplexCriterion" else enums.Equality.eq)
+        elif name == "operator":
+            args.append(enums.Arithmetic.add)
+        elif name == "container":
+            args.append(P.Tuple(1, 2))
+        elif name == "value":
+            args.append(3)
+        elif name == "zone":
+            args.append("UTC")
         else:
             args.append(P.Field("c", table=P.Table("t")))
-    return cls(*args)
+    return cls(*args, **kw)
 
 
 def instance(cls, env):
@@ -315,6 +334,16 @@ def depth0_index(tokens, word, start=0):
     return len(tokens)
 
 
+def select_list_end(tokens):
+    """index of the statement's own FROM: the first FROM outside brackets that is not the tail of IS [NOT] DISTINCT FROM"""
+    i = 0
+    while True:
+        i = depth0_index(tokens, "FROM", i)
+        if i >= len(tokens) or i == 0 or not (tokens[i - 1].kind == "word" and tokens[i - 1].value == "DISTINCT"):
+            return i
+        i += 1
+
+
 def check_cell(tcls, cls_name, pos, via, mode="ctx"):
     """-> ('skip', reason) | ('ok', None) | ('viol', kind, detail)"""
     env = prog.Env(cls_name, SRC)
@@ -386,7 +415,7 @@ def check_cell(tcls, cls_name, pos, via, mode="ctx"):
         return ("viol", "wrong_quote", "%r" % s1)
     # the insertion point must be the end of the term
     if pos in ("select", "select_last"):
-        want = depth0_index(t0, "FROM")
+        want = select_list_end(t0)
     elif pos == "returning":
         want = len(t0)
     elif pos == "distinct_on":
@@ -474,7 +503,7 @@ def check_groupby(tcls, cls_name, clause, defined):
         if clause == "groupby" and cls_name in ("mssql", "oracle"):
             return ("viol", "alias_reference_forbidden", "%s: %r" % (cls_name, s1))
         # the select list must define the alias
-        sel_end = depth0_index(t1, "FROM")
+        sel_end = select_list_end(t1)
         defined_in_select = any(t1[i].kind == "qid" and t1[i].value == ALIAS and (i + 1 == sel_end or (t1[i + 1].kind == "punct" and t1[i + 1].text == ",")) for i in range(1, sel_end))
         if not defined_in_select:
             return ("viol", "undefined_reference", "%s %s refers to an alias the select list does not define: %r" % (tcls.__name__, clause, s1))
@@ -544,7 +573,31 @@ def check_reuse(tcls, cls_name, clause, mode="ctx"):
     return ("ok", None)
 
 
+def check_alias_kw(tcls, cls_name, mode="ctx"):
+    """the alias= constructor argument is the other way to name a term: it must give exactly what .as_() gives"""
+    if not accepts_alias_kw(tcls):
+        return ("skip", "no-alias-kw")
+    try:
+        xa = build_by_signature(tcls).as_(ALIAS)
+        s_as = render(statement(cls_name, "select_last", xa), cls_name, mode)
+    except Exception as e:
+        return ("skip", "construct:" + type(e).__name__)
+    if alias_count(lex.lex(s_as if isinstance(s_as, str) else s_as[0], cls_name)) != 1:
+        return ("skip", "as_-form-without-alias")  # the cell matrix reports that one
+    try:
+        xk = build_by_signature(tcls, alias=ALIAS)
+        s_kw = render(statement(cls_name, "select_last", xk), cls_name, mode)
+    except Exception as e:
+        return ("viol", "alias_kw_raises:" + type(e).__name__, "%s(.., alias=..): %r" % (tcls.__name__, e))
+    if s_kw != s_as:
+        n = alias_count(lex.lex(s_kw if isinstance(s_kw, str) else s_kw[0], cls_name))
+        return ("viol", "alias_kw_dropped" if n == 0 else "alias_kw_differs", "%s(.., alias=%r) gives %r, .as_(%r) gives %r" % (tcls.__name__, ALIAS, s_kw, ALIAS, s_as))
+    return ("ok", None)
+
+
 def sig_of(tcls, pos, kind, cls_name="generic"):
+    if pos == "alias_kw":
+        return mksig(class_key(tcls), "alias_kw", kind)  # every constructor passes its alias on by itself
     grp = pos if pos in DEFINING + ["from", "join", "groupby", "orderby"] else "operand"
     if kind == "leaked" and pos in TARGET_POSITIONS:
         r = check_cell(tcls, cls_name, "cmp_left", "as_")
@@ -594,6 +647,9 @@ def check_case(case):
     if case.get("family") == "reuse":
         r = check_reuse(tcls, case["cls"], case["clause"], case.get("mode", "ctx"))
         return [(sig_of(tcls, "reuse", r[1], case["cls"]), r[2])] if r[0] == "viol" else []
+    if case.get("family") == "alias_kw":
+        r = check_alias_kw(tcls, case["cls"], case.get("mode", "ctx"))
+        return [(sig_of(tcls, "alias_kw", r[1], case["cls"]), r[2])] if r[0] == "viol" else []
     if case.get("family") == "gb":
         r = check_groupby(tcls, case["cls"], case["clause"], case["defined"])
         pos = case["clause"]
@@ -663,6 +719,17 @@ def run_shard(shard):
                 col.case(case, True, classes=("reuse:" + clause,))
                 if r[0] == "viol":
                     col.violation(sig_of(tcls, "reuse", r[1], cls_name), case, r[2])
+    for tcls in term_classes():
+        for mode in ("ctx", "par"):
+            case = {"family": "alias_kw", "term": class_key(tcls), "cls": cls_name, "mode": mode}
+            r = check_alias_kw(tcls, cls_name, mode)
+            if r[0] == "skip":
+                col.count("skip:alias_kw:" + r[1])
+                col.evaluations += 1
+                continue
+            col.case(case, True, classes=("alias_kw",))
+            if r[0] == "viol":
+                col.violation(sig_of(tcls, "alias_kw", r[1], cls_name), case, r[2])
     col.notes["uncovered"] = sorted(uncovered)
     col.notes["term_classes_discovered"] = "%d" % len(term_classes())
     col.exhaustive = True
